@@ -1,5 +1,6 @@
 SPECIFICATION Spec
 CONSTANTS
+  Pre <- NoPre
   FailingGov = FALSE
   MaxHeight = 2
   MaxTx = 4
